@@ -77,16 +77,15 @@ fn extract_bracket_expr(pattern: &str) -> Option<(String, &str)> {
                 //
                 //     6. ...  A character class expression is expressed as a character class name
                 //        enclosed within bracket- <colon> ( "[:" and ":]" ) delimiters.
-                next = chars.next();
-                if let Some(delim) = next {
-                    expr.push(delim);
-
-                    if matches!(delim, '.' | '=' | ':') {
-                        let rest = chars.as_str();
-                        let end = rest.find([delim, ']'])? + 2;
-                        expr.push_str(&rest[..end]);
-                        chars = rest[end..].chars();
-                    }
+                //
+                // Any other character after the '[' is an ordinary member of
+                // the list (or the ']' that ends it) and is left to the loop.
+                let rest = chars.as_str();
+                if let Some(delim @ ('.' | '=' | ':')) = rest.chars().next() {
+                    let close = [delim, ']'];
+                    let end = rest[1..].find(close.iter().collect::<String>().as_str())? + 3;
+                    expr.push_str(&rest[..end]);
+                    chars = rest[end..].chars();
                 }
             }
             ']' => {
